@@ -23,7 +23,7 @@ def specs_for(pid, tier, colors):
         specs = [f"block:{k}" for k in ks if colors ** k <= 4096]
         specs += ["block:2+block:2"] if colors ** 4 <= 4096 else []
         return specs
-    ks = [1, 2, 3] if tier == "thorough" else [1, 2]
+    ks = [1, 2, 3]
     specs = [f"back:{k}" for k in ks]
     specs += [f"block:2+back:{k}" for k in ks[:2] if colors ** 2 <= 64]
     return specs
@@ -93,8 +93,8 @@ def judge_runs(lines, outs, only=None, tier="quick"):
 
 
 def check_sim(rep, pid, tier, seed):
-    progs, rng = M.base_programs(tier, seed)
-    n_cycles = 200 if tier == "thorough" else 60
+    progs, rng = M.base_programs(tier, seed, n_rand_quick=1500)
+    n_cycles = 200 if tier == "thorough" else 80
     lines = core.corpus_lines(pid)
     for p in progs:
         st, co = M.dims(p)
